@@ -163,6 +163,11 @@ def _async_call(sp, loop, W, tmo, deliveries, end, pats):
             pw.eof_received()
         elif end == 'eio':
             pw.connection_lost(OSError(errno.EIO, 'eio'))
+        elif end == 'eof+lost':
+            # pipes and sockets: asyncio reports a zero-length read as eof_received() and then, in the same turn of
+            # the loop, connection_lost(None)
+            pw.eof_received()
+            pw.connection_lost(None)
     try:
         coro.send('go' if pw.fut.done() else 'timeout')
     except StopIteration as si:
@@ -172,7 +177,7 @@ def _async_call(sp, loop, W, tmo, deliveries, end, pats):
     raise AssertionError('coroutine did not finish')
 
 
-@obligation(params=dict(k1=Int(0, 10), k2=Int(10, 10), d1=Int(0, 3), end=Int(0, 2), W=Int(0, 3), early=Int(0, 2), tmode=Int(0, 2),
+@obligation(params=dict(k1=Int(0, 10), k2=Int(10, 10), d1=Int(0, 3), end=Int(0, 3), W=Int(0, 3), early=Int(0, 2), tmode=Int(0, 2),
                         listed=Bool()),
             tags={2: 'both calls matched', 3: 'second call ended in EOF', 4: 'second call timed out', 5: 'data arrived while no call was outstanding',
                   6: 'EOF/TIMEOUT raised as exceptions (not listed)'},
@@ -180,7 +185,7 @@ def _async_call(sp, loop, W, tmo, deliveries, end, pats):
             thorough=dict(params=dict(k2=Int(0, 10)), timeout=3000, split=('end', 'W', 'listed', 'early')),
             note='two awaited calls vs two blocking calls on the same stream: k1<=k2 cut the stream into three chunks; '
                  'early chunks arrive before the first await (pending), d1 chunks during the first call, the rest during the second; '
-                 'end: EOF / EIO connection loss / timeout; W search window (0 = none)')
+                 'end: EOF / EIO connection loss / timeout / EOF followed by a clean connection_lost(None) (pipes, sockets); W search window (0 = none)')
 def P1_parity(k1, k2, d1, end, W, early, tmode, listed=True):
     pats = [b'ab', EOF, TIMEOUT] if listed else [b'ab']
     n = len(S)
@@ -196,7 +201,7 @@ def P1_parity(k1, k2, d1, end, W, early, tmode, listed=True):
     if d1 > len(rest):
         return SKIP
     first, second = rest[:d1], rest[d1:]
-    endk = ['eof', 'eio', 'timeout'][pick(end, 0, 2)]
+    endk = ['eof', 'eio', 'timeout', 'eof+lost'][pick(end, 0, 3)]
     tmo = [5, -1, None][pick(tmode, 0, 2)]
     if tmo is None and endk == 'timeout':
         return SKIP
@@ -225,6 +230,10 @@ def P1_parity(k1, k2, d1, end, W, early, tmode, listed=True):
             second = []
             if endk == 'eof':
                 pw.eof_received()
+                endk_a = 'closed'
+            elif endk == 'eof+lost':
+                pw.eof_received()
+                pw.connection_lost(None)
                 endk_a = 'closed'
             elif endk == 'eio':
                 pw.connection_lost(OSError(errno.EIO, 'eio'))
@@ -285,7 +294,7 @@ def P1_parity(k1, k2, d1, end, W, early, tmode, listed=True):
 
 
 def dry_runs():
-    for end in range(3):
+    for end in range(4):
         for W in range(4):
             yield 'P1_parity', dict(k1=3, k2=6, d1=1, end=end, W=W, early=1, tmode=0)
             yield 'P1_parity', dict(k1=4, k2=8, d1=2, end=end, W=W, early=0, tmode=1)
